@@ -60,10 +60,57 @@ def guard_probe(payload):
     return {"available": ng.NUMBA_AVAILABLE, "call": f(1, b=5, c=7), "prange": list(ng.prange(3)), "prange2": list(ng.prange(1, 4))}
 
 
+def frozen_global_history(payload):
+    """worker: label a table, call the one-argument function that rebinds the global with each candidate value, label again"""
+    import importlib
+    from fast_ticc import cluster_label_assignment as cla
+    tab, site = payload["table"], payload["site"]
+    mod = importlib.import_module("fast_ticc." + site["file"][:-3].replace("/", "."))
+    out = []
+    labels, cost = cla.assign_point_cluster_labels(tab, 2.0)
+    out.append(("first call", [int(x) for x in labels], float(cost)))
+    for setter in site["setters"]:
+        for v in payload["values"]:
+            try:
+                getattr(mod, setter)(v)
+            except Exception as e:  # noqa
+                out.append(("%s(%r) raised %s" % (setter, v, type(e).__name__), None, None))
+                continue
+            labels, cost = cla.assign_point_cluster_labels(tab, 2.0)
+            out.append(("after %s(%r)" % (setter, v), [int(x) for x in labels], float(cost)))
+    return out
+
+
 def run(ctx):
     rng = np.random.default_rng(ctx.seed)
     ctx.proof_layer(allowed_axioms=(), coq_deps=[])
     core.note_drift(ctx, ANCHORS)
+    # source-derived (regenerated on every run): no compiled function may read a module global that the module rebinds - the
+    # compiler freezes the value at its first call, the interpreter does not
+    from .. import inventory
+    frozen = inventory.jit_frozen_globals()
+    ctx.notes["jit_frozen_globals"] = frozen
+    ctx.count("inventory:jit-frozen-globals")
+    if frozen:
+        ctx.violation("tie", "a Numba-compiled function reads a module-level name that another function rebinds (%s): compiled and interpreted "
+                      "runs diverge once it is rebound after the first call" % ", ".join("%s:%s reads %s" % (f["file"], f["function"], f["global"]) for f in frozen[:4]),
+                      {"correspondence": "inventory:jit-frozen-globals", "sites": frozen}, no_input=True)
+        # search for the concrete history: the same sequence of calls (label, rebind through the module's own one-argument
+        # function, label again) in a compiled and in an interpreted process
+        tabh = np.random.default_rng(15).integers(0, 9, size=(12, 3)).astype(np.float64)
+        for site in frozen[:3]:
+            if not site["setters"]:
+                continue
+            pl = {"table": tabh, "site": site, "values": [0.5, 3.0, 0.0]}
+            hh = {m: core.start_worker(ctx, "vcheck.props.c15:frozen_global_history", pl, mode=m, tag="frozen") for m in ("interp", "jit")}
+            rr = {m: core.wait_worker(h, timeout=300) for m, h in hh.items()}
+            if all(r["ok"] for r in rr.values()):
+                for a, b in zip(rr["interp"]["result"], rr["jit"]["result"]):
+                    if a != b:
+                        ctx.violation("monitor", "labelling kernel, same calls in one process: %s the interpreted kernel returns cost %r, the compiled one %r"
+                                      % (a[0], a[2], b[2]), {"case": {"history": [x[0] for x in rr["interp"]["result"]], "table": tabh.tolist(), "beta": 2.0,
+                                                                      "module": site["file"], "rebinds": site["global"]}})
+                        break
     cov = core.LineCoverage()
     with cov:
         # likelihood table kernel
